@@ -244,6 +244,14 @@ func runC07(r *Run) {
 					r.Violate("rebound-environment-accepted", what+fmt.Sprintf(" ; same *val.Env re-bound %s := %s between two calls", name.name, other),
 						fmt.Sprintf("second call: err=%v, %d host calls", err, len(tl2.ev)))
 				}
+				for retry := 2; retry <= 3; retry++ { // the same mismatching object again
+					tl2.ev = nil
+					if _, err := cl(venv); err == nil || len(tl2.ev) > 0 {
+						r.Violate("rebound-environment-accepted", what+fmt.Sprintf(" ; same *val.Env re-bound %s := %s, mismatching call #%d", name.name, other, retry),
+							fmt.Sprintf("err=%v, %d host calls (the first mismatching call was rejected)", err, len(tl2.ev)))
+						break
+					}
+				}
 				venv.Put(name.name, old)
 				tl2.ev = nil
 				if _, err := cl(venv); err != nil {
@@ -343,7 +351,15 @@ func c07SharedNodes(r *Run) {
 			if err, _ := call(c.good); err != nil {
 				r.Violate("conforming-environment-rejected", fmt.Sprintf("%q, %s : %s with one shared node, value of the same type on %s", c.src, c.name, c.ty, be), firstLine(err.Error()))
 			}
-			for _, b := range c.bad {
+			for _, b0 := range c.bad {
+				b := b0
+				for rep := 0; rep < 2; rep++ { // a rejected value stays rejected when it is presented again
+					if err, n := call(b); err == nil || n > 0 {
+						r.Violate("mismatching-environment-accepted", fmt.Sprintf("%q compiled against %s : %s (one shared node), called AGAIN with %s : %s on %s", c.src, c.name, c.ty, c.name, b.Type, be),
+							fmt.Sprintf("err=%v, %d host calls on repetition %d", err, n, rep+2))
+						break
+					}
+				}
 				if err, n := call(b); err == nil || n > 0 {
 					r.Violate("mismatching-environment-accepted", fmt.Sprintf("%q compiled against %s : %s (one shared node), called with %s : %s on %s", c.src, c.name, c.ty, c.name, b.Type, be),
 						fmt.Sprintf("err=%v, %d host calls", err, n))
